@@ -76,7 +76,11 @@ def gen_cases(tier, seed):
 
 # ----------------------------------------------------------------------------- snapshots
 def _digest(a):
-    a = np.asarray(a)
+    try:
+        a = np.asarray(a)
+    except RuntimeError as e:
+        # a buffer that was donated / deleted behind the caller's back: the argument WAS modified
+        return ("deleted-array", str(e)[:60], "")
     return (str(a.dtype), tuple(a.shape), hashlib.sha1(np.ascontiguousarray(a).tobytes()).hexdigest()[:16])
 
 
